@@ -85,6 +85,8 @@ STAGES = {
     'chunked-2': (lambda i: i.chunked(2), lambda it: chunked_iter(it, 2)),
     'chunked-2-fill': (lambda i: i.chunked(2, fill=None), lambda it: chunked_iter(it, 2, fill=None)),
     'windowed-2': (lambda i: i.windowed(2), lambda it: windowed_iter(it, 2)),
+    'windowed-0': (lambda i: i.windowed(0), lambda it: windowed_iter(it, 0)),      # degenerate sizes: nothing comes out
+    'limit-0': (lambda i: i.limit(0), lambda it: islice(it, 0)),
     'split-2': (lambda i: i.split(sep=2), lambda it: split_iter(it, sep=2)),
     'unique': (lambda i: i.unique(), lambda it: unique_iter(it)),
     'unique-mod3': (lambda i: i.unique(mod3), lambda it: unique_iter(it, key=mod3)),
